@@ -14,6 +14,20 @@ from common import NASimEnv
 import scen_gen
 
 DR = C.Draw()
+FLAT = {}          # scenario index -> flat action list (to translate indices for parameterised envs)
+
+
+def flat_list(sc):
+    """the documented flat enumeration, built by the harness itself (independent of any cache the
+    implementation may keep)"""
+    from nasim.envs.action import ServiceScan, OSScan, SubnetScan, ProcessScan, Exploit, PrivilegeEscalation
+    out = []
+    for address in sc.address_space:
+        out += [ServiceScan(address, sc.service_scan_cost), OSScan(address, sc.os_scan_cost),
+                SubnetScan(address, sc.subnet_scan_cost), ProcessScan(address, sc.process_scan_cost)]
+        out += [Exploit(n, address, **d) for n, d in sc.exploits.items()]
+        out += [PrivilegeEscalation(n, address, **d) for n, d in sc.privescs.items()]
+    return out
 
 
 def layout_of(sc):
@@ -28,7 +42,8 @@ def observe(env):
     out["readable"] = json.dumps(env.current_state.get_readable(), default=str)
     out["obs_readable"] = json.dumps(env.last_obs.get_readable(), default=str)
     out["goal"] = bool(env.goal_reached())
-    out["mask"] = env.get_action_mask().tolist()
+    if env.flat_actions:
+        out["mask"] = env.get_action_mask().tolist()
     return out
 
 
@@ -36,7 +51,7 @@ def apply(envs, scs, op):
     """apply one operation; returns (env index, what it returned)"""
     kind, i = op[0], op[1]
     if kind == "construct":
-        envs[i] = NASimEnv(scs[i], fully_obs=op[2], flat_actions=True, flat_obs=True)
+        envs[i] = NASimEnv(scs[i], fully_obs=op[2], flat_actions=op[3], flat_obs=True)
         return i, dict(op="construct", **observe(envs[i]))
     env = envs[i]
     if kind == "reset":
@@ -44,7 +59,13 @@ def apply(envs, scs, op):
         return i, dict(op="reset", obs=o.tobytes().hex(), **observe(env))
     if kind == "step":
         DR.v = op[3]
-        o, r, d, t, info = env.step(op[2])
+        act = op[2]
+        if not env.flat_actions:
+            # the same semantic action through the parameterised space (when expressible)
+            import suite_dyn
+            vec = suite_dyn.param_vector(scs[i], FLAT[i][op[2]])
+            act = vec if vec is not None else [2, 0, 0, 0, 0, 0]
+        o, r, d, t, info = env.step(act)
         return i, dict(op="step", obs=o.tobytes().hex(), reward=float(r), done=bool(d), trunc=bool(t),
                        info=json.dumps({k: str(v) for k, v in info.items()}, sort_keys=True), **observe(env))
     if kind == "geninit":
@@ -63,12 +84,12 @@ def safe_apply(envs, scs, op):
 
 
 def gen_ops(rng, scs, length):
-    ops = [("construct", 0, rng.random() < 0.5)]
+    ops = [("construct", 0, rng.random() < 0.5, rng.random() < 0.6)]
     constructed = {0}
     nact = [sc.get_action_space_size() for sc in scs]
     for _ in range(length):
         if 1 not in constructed and rng.random() < 0.35:
-            ops.append(("construct", 1, rng.random() < 0.5)); constructed.add(1); continue
+            ops.append(("construct", 1, rng.random() < 0.5, rng.random() < 0.6)); constructed.add(1); continue
         i = rng.choice(sorted(constructed))
         r = rng.random()
         if r < 0.6:
@@ -80,41 +101,65 @@ def gen_ops(rng, scs, length):
         elif r < 0.9:
             ops.append(("observe", i))
         else:
-            ops.append(("construct", i, rng.random() < 0.5))   # re-create an environment
+            ops.append(("construct", i, rng.random() < 0.5, rng.random() < 0.6))   # re-create an environment
     if 1 not in constructed:
-        ops.append(("construct", 1, False)); ops.append(("step", 0, 0, 0.0))
+        ops.append(("construct", 1, False, True)); ops.append(("step", 0, 0, 0.0))
     return ops
+
+
+def build_pair(seed, idx, mode, tier):
+    rng = random.Random(f"{seed}-{idx}-{mode}-multi")
+    A = scen_gen.rand_scenario(rng)
+    if mode == "same-scenario":
+        B = A
+    elif mode == "same-layout":
+        B = scen_gen.rand_scenario(rng, like=A)
+    else:
+        for _ in range(50):
+            B = scen_gen.rand_scenario(rng)
+            if layout_of(B) != layout_of(A):
+                break
+    scs = [A, B]
+    FLAT[0], FLAT[1] = flat_list(A), flat_list(B)
+    ops = gen_ops(rng, scs, 14 if tier == "quick" else 40)
+    return scs, ops
+
+
+def solo_main(argv):
+    """fresh interpreter: the operations of environment i alone (nothing else ever lived here)"""
+    seed, idx, mode, tier, i = int(argv[0]), int(argv[1]), argv[2], argv[3], int(argv[4])
+    np.random.rand = DR
+    scs, ops = build_pair(seed, idx, mode, tier)
+    envs = {}
+    print(json.dumps([safe_apply(envs, scs, op)[1] for op in ops if op[1] == i]))
+
+
+def solo_reference(seed, idx, mode, tier, i):
+    import subprocess
+    env = dict(os.environ, NASIM_REPO=C.REPO)
+    p = subprocess.run([sys.executable, os.path.abspath(__file__), "--solo", str(seed), str(idx), mode, tier, str(i)],
+                       capture_output=True, text=True, timeout=300, env=env)
+    if p.returncode != 0:
+        raise RuntimeError("solo worker failed: " + p.stderr[-500:])
+    return json.loads(p.stdout.strip().split("\n")[-1])
 
 
 def run_pair(args):
     seed, idx, mode, tier = args
     np.random.rand = DR
-    rng = random.Random(f"{seed}-{idx}-{mode}-multi")
     res = dict(idx=idx, mode=mode, ops=0, findings=[], error=None, sample=None, interfered=False)
     try:
-        A = scen_gen.rand_scenario(rng)
-        if mode == "same-scenario":
-            B = A
-        elif mode == "same-layout":
-            B = scen_gen.rand_scenario(rng, like=A)
-        else:
-            for _ in range(50):
-                B = scen_gen.rand_scenario(rng)
-                if layout_of(B) != layout_of(A):
-                    break
-        scs = [A, B]
+        scs, ops = build_pair(seed, idx, mode, tier)
+        A, B = scs
         equal = layout_of(A) == layout_of(B)
-        ops = gen_ops(rng, scs, 14 if tier == "quick" else 40)
         res["ops"] = len(ops)
-        # solo references: the operations of environment i alone, in a world where only it exists
-        solo = {}
-        for i in (0, 1):
-            envs = {}
-            solo[i] = [safe_apply(envs, scs, op)[1] for op in ops if op[1] == i]
+        # solo references: the operations of environment i alone, each in a fresh interpreter
+        solo = {i: solo_reference(seed, idx, mode, tier, i) for i in (0, 1)}
         envs = {}
         seen = {0: 0, 1: 0}
         for k, op in enumerate(ops):
             i, got = safe_apply(envs, scs, op)
+            got = json.loads(json.dumps(got))
             want = solo[i][seen[i]]; seen[i] += 1
             if got != want:
                 fields = [f for f in sorted(set(got) | set(want)) if got.get(f) != want.get(f)]
@@ -140,7 +185,7 @@ def run_pair(args):
     return res
 
 
-BUDGET = {"quick": dict(same_scenario=10, same_layout=40, different=20),
+BUDGET = {"quick": dict(same_scenario=6, same_layout=30, different=10),
           "thorough": dict(same_scenario=100, same_layout=600, different=150)}
 
 
@@ -162,6 +207,8 @@ def run(tier, seed):
 
 
 if __name__ == "__main__":
+    if len(sys.argv) > 1 and sys.argv[1] == "--solo":
+        solo_main(sys.argv[2:]); sys.exit(0)
     tier = sys.argv[1] if len(sys.argv) > 1 else "quick"
     seed = int(sys.argv[2]) if len(sys.argv) > 2 else 0
     t = time.time()
